@@ -201,6 +201,28 @@ def rule_F2(ctx: Ctx) -> None:
             ctx.unknown(w, slot, exp, "writer record is not a closed dict")
         else:
             ctx.judge(r, rk <= wk and bool(rk), slot, exp, f"reader needs {sorted(rk - wk)} which the writer never stores: KeyError on load")
+    # nothing the writer stores is dropped by the reader, and the reader hands all three components to the constructor
+    REDUNDANT = {"maze_endpoints": "endpoints are the two ends of the stored solution (SolvedMaze.__init__ derives them; C03.P5)"}
+    init_params = set(ctx.index.func(f"{MD}.MazeDataset.__init__").params()[1:])
+    for w, r in _pairs(ctx):
+        _, rec = _format_of_writer(w)
+        wk = X.keys_written(rec) or set()
+        rk = _reader_keys(r)
+        dropped = sorted(wk - rk - {"__format__"} - set(REDUNDANT))
+        ctor = [c for c in X.calls(r.node) if X.U(c.func) == "cls"]
+        passed = set()
+        if len(ctor) == 1:
+            passed = {k.arg for k in ctor[0].keywords if k.arg}
+            for k in ctor[0].keywords:
+                if k.arg is None and isinstance(k.value, ast.DictComp):
+                    it = k.value.generators[0].iter
+                    if isinstance(it, ast.List):
+                        passed |= {e.value for e in it.elts if isinstance(e, ast.Constant)}
+        ctx.judge(r, not dropped and passed == init_params,
+                  {"writer": w.name, "reader": r.name, "stored_but_never_read": dropped, "constructor_arguments": sorted(passed),
+                   "constructor_parameters": sorted(init_params), "tabulated_redundant_keys": REDUNDANT},
+                  "every stored component is read back and passed to the constructor (cfg, mazes, generation_metadata_collected)",
+                  "a stored component (e.g. the collected generation metadata) silently disappears in the round trip")
     cs = ctx.index.func(f"{CD}.MazeDatasetCollection.serialize")
     cl = ctx.index.func(f"{CD}.MazeDatasetCollection.load")
     _, rec = _format_of_writer(cs)
@@ -370,6 +392,47 @@ def rule_F4(ctx: Ctx) -> None:
     ok = isinstance(mds, ast.ListComp) and X.U(mds.generators[0].iter) == "self.maze_datasets" and not mds.generators[0].ifs and \
         X.U(mds.elt) == f"{mds.generators[0].target.id}.serialize()"
     ctx.judge(cs, ok, {"maze_datasets": X.U(mds)}, "collection stores every member's serialize() in member order")
+
+
+def rule_F9(ctx: Ctx) -> None:
+    "allocation sizes agree with what the loop enumerates"
+    exp = ("the arrays are allocated for exactly the mazes the loop enumerates: first dimension = len(<enumerated list>), padded width = max "
+           "solution length, concatenated height = sum of the lengths")
+    for wname in ("_serialize_minimal", "_serialize_minimal_soln_cat"):
+        w = ctx.index.func(f"{MD}.MazeDataset.{wname}")
+        loops = [n for n in ast.walk(w.node) if isinstance(n, ast.For) and isinstance(n.iter, ast.Call) and dotted_of(n.iter.func) == "enumerate"]
+        if len(loops) != 1:
+            ctx.unknown(w, {"loops": len(loops)}, exp)
+            continue
+        lst = X.U(loops[0].iter.args[0])
+        want = N.affine(X.expr_of(f"len({lst})"))
+        for arr in ("maze_connection_lists", "maze_solution_lengths", "maze_solutions", "maze_endpoints"):
+            d = X.assignments_to(w.node, arr)
+            allocs = [x for x in d if isinstance(x, ast.Call) and dotted_of(x.func) in ("np.empty", "np.zeros", "np.full", "np.ones")]
+            if not allocs:
+                continue
+            shp = allocs[0].args[0]
+            first = shp.elts[0] if isinstance(shp, ast.Tuple) else shp
+            env = {}
+            if isinstance(first, ast.Name):
+                fd = X.assignments_to(w.node, first.id)
+                got = N.affine(X.substitute_len(fd[0])) if len(fd) == 1 else None
+                txt = X.U(fd[0]) if len(fd) == 1 else None
+            else:
+                got, txt = N.affine(X.substitute_len(first)), X.U(first)
+            ok = got is not None and N.aff_eq(got, want)
+            ctx.judge(w, ok, {"array": arr, "first_dimension": txt, "enumerates": lst}, exp,
+                      "rows are allocated from another count than the mazes written: uninitialised extra mazes on load, or IndexError when writing", node=allocs[0])
+        # widths
+        if wname == "_serialize_minimal":
+            d = X.assignments_to(w.node, "max_solution_len")
+            ok = len(d) == 1 and isinstance(d[0], ast.Call) and dotted_of(d[0].func) == "max" and isinstance(d[0].args[0], (ast.GeneratorExp, ast.ListComp)) \
+                and X.U(d[0].args[0].generators[0].iter) == lst and X.U(X.substitute_len(d[0].args[0].elt)) == f"len({X.U(d[0].args[0].generators[0].target)}.solution)"
+            ctx.judge(w, ok, {"max_solution_len": X.U(d[0]) if d else None}, exp, "the padded array is too narrow for the longest solution (ValueError) or lengths of another list are used")
+        else:
+            d = X.assignments_to(w.node, "total_solution_len")
+            ok = len(d) == 1 and X.U(d[0]) in ("np.sum(maze_solution_lengths)", "maze_solution_lengths.sum()", "int(np.sum(maze_solution_lengths))")
+            ctx.judge(w, ok, {"total_solution_len": X.U(d[0]) if d else None}, exp)
 
 
 def rule_F5(ctx: Ctx) -> None:
@@ -585,11 +648,12 @@ def rule_F8(ctx: Ctx) -> None:
 
 RULES = [
     Rule("C05.F1", rule_F1, floor=9, doc="format closure and zanj routing"),
-    Rule("C05.F2", rule_F2, floor=4, doc="writer/reader key agreement"),
+    Rule("C05.F2", rule_F2, floor=8, doc="writer/reader key agreement, nothing stored is dropped"),
     Rule("C05.F3", rule_F3, floor=5, doc="slice agreement of padded / concatenated storage"),
     Rule("C05.F4", rule_F4, floor=4, doc="order preservation"),
     Rule("C05.F5", rule_F5, floor=4, doc="storage capacity"),
     Rule("C05.F6", rule_F6, floor=1, doc="serializer totality over metadata states"),
     Rule("C05.F7", rule_F7, floor=1, doc="threshold selection"),
     Rule("C05.F8", rule_F8, floor=3, doc="serialisation does not drift the configuration's identity"),
+    Rule("C05.F9", rule_F9, floor=7, doc="allocation sizes agree with the enumeration"),
 ]
